@@ -38,6 +38,15 @@ def generic_field(cs, deg, ncomp, planar=False, prefix="p"):
     return comps, coeffs
 
 
+def curlz_free_field(cs, deg):
+    """generic field whose curl has NO z component identically but is not zero: F = (P(z) + d(phi)/dx, d(phi)/dy, Q(x, y)), generic coefficients"""
+    x, y, z = cs.coord_system.base_scalars()
+    P = sum(sp.Symbol(f"P{i}", real=True) * z**i for i in range(1, deg + 1))
+    phi = sum(sp.Symbol(f"f{i}{j}", real=True) * x**i * y**j for i in range(deg + 2) for j in range(deg + 2) if 1 <= i + j <= deg + 1)
+    Q = sum(sp.Symbol(f"Q{i}{j}", real=True) * x**i * y**j for i in range(deg + 1) for j in range(deg + 1) if 1 <= i + j <= deg)
+    return [P + sp.diff(phi, x), sp.diff(phi, y), Q]
+
+
 def regions(t, u, v):
     R, a, b = sp.symbols("R a b", positive=True)
     return {
@@ -49,6 +58,9 @@ def regions(t, u, v):
         "circle_swapped": dict(curve=[R * sp.cos(t), R * sp.sin(t)], climits=(t, 0, 2 * sp.pi), surface=[u * sp.cos(v), u * sp.sin(v)], s1=(v, 0, 2 * sp.pi), s2=(u, 0, R), sizes=[R]),
         "rectangle_swapped": dict(segments=[([t, 0], (t, 0, a)), ([a, t], (t, 0, b)), ([a - t, b], (t, 0, a)), ([0, b - t], (t, 0, b))],
                                   surface=[u, v], s1=(v, 0, b), s2=(u, 0, a), sizes=[a, b]),
+        # a rectangle in the tilted plane z = x (Stokes only): the x and y components of the curl matter here, not only the z component
+        "tilted_rectangle": dict(segments=[([t, 0, t], (t, 0, a)), ([a, t, a], (t, 0, b)), ([a - t, b, a - t], (t, 0, a)), ([0, b - t, 0], (t, 0, b))],
+                                 surface=[u, v, u], s1=(u, 0, a), s2=(v, 0, b), sizes=[a, b]),
         "rectangle": dict(segments=[([t, 0], (t, 0, a)), ([a, t], (t, 0, b)), ([a - t, b], (t, 0, a)), ([0, b - t], (t, 0, b))],
                           surface=[u, v], s1=(u, 0, a), s2=(v, 0, b), sizes=[a, b]),
     }
@@ -88,6 +100,8 @@ def work(item):
                 planar = theorem == "green"
                 # variant "theoremz": a two-component field that also depends on z (evaluated in the plane z = 0 by both routines)
                 comps, coeffs = generic_field(C, deg, 2 if planar else 3, planar=planar and variant != "theoremz")
+                if variant == "curlzfree":
+                    comps = curlz_free_field(C, deg)
                 field = VectorField.from_vector(Vector(comps, C))
                 f_curve = AN.circulation_along_curve if theorem == "stokes" else AN.flux_across_curve
                 f_surf = AN.circulation_along_surface_boundary if theorem == "stokes" else AN.flux_across_surface_boundary
@@ -103,7 +117,7 @@ def work(item):
                             traj = [sp.sympify(c).subs(p, lo + hi - p) for c in traj]
                         tot += f_curve(field, traj, (p, lo, hi))
                     return tot
-                if variant in ("theorem", "theoremz"):
+                if variant in ("theorem", "theoremz", "curlzfree"):
                     lhs = curve_value()
                     rhs = f_surf(field, reg["surface"], reg["s1"], reg["s2"])
                     return lhs, rhs, [t, u, v]
@@ -192,7 +206,9 @@ random.seed(11)
 sizes = {{sp.Symbol("R", positive=True): 2, sp.Symbol("a", positive=True): 3, sp.Symbol("b", positive=True): sp.Rational(3, 2), sp.Symbol("c", positive=True): 2}}
 planar = theorem == "green"
 comps, coeffs = c13.generic_field(C, deg, 2 if planar else 3, planar=planar and variant != "theoremz")
-vals = {{a: random.randint(-4, 4) for a in coeffs}}
+if variant == "curlzfree":
+    comps = c13.curlz_free_field(C, deg); coeffs = sorted({{s for c in comps for s in sp.sympify(c).free_symbols if not isinstance(s, BaseScalar)}}, key=str)
+vals = {{a: random.randint(-4, 4) or 1 for a in coeffs}}
 comps = [sp.sympify(c).subs(vals) for c in comps]
 field = VectorField.from_vector(Vector(comps, C))
 def num(e):
@@ -214,7 +230,7 @@ try:
                 if reverse: traj = [c.subs(p, lo + hi - p) for c in traj]
                 tot += fc(field, traj, (p, lo, hi))
             return num(tot)
-        if variant in ("theorem", "theoremz"):
+        if variant in ("theorem", "theoremz", "curlzfree"):
             s1 = tuple(sp.sympify(x).subs(sizes) for x in reg["s1"]); s2 = tuple(sp.sympify(x).subs(sizes) for x in reg["s2"])
             l = curve(); r = num(fs(field, [sp.sympify(c).subs(sizes) for c in reg["surface"]], s1, s2))
         elif variant == "speed": l = curve(); r = curve(scale=sp.Rational(5, 2))
@@ -266,6 +282,8 @@ def run(ctx):
         items.append(("gauss_curv", "ball", deg, "theorem", timeout))
         items.append(("gauss_curv", "cylinder", deg, "theorem", timeout))
         items.append(("stokes", "disc_xy", deg, "theorem", timeout))
+        items.append(("stokes", "tilted_rectangle", deg, "theorem", timeout))
+        items.append(("stokes", "tilted_rectangle", deg, "curlzfree", timeout))
         items.append(("green", "disc_xy", deg, "theorem", timeout))
         items.append(("green", "circle_swapped", deg, "theorem", timeout))
         items.append(("green", "circle", deg, "theoremz", timeout))
